@@ -3,7 +3,6 @@ package main
 import (
 	"fmt"
 	"math/rand"
-	"sync"
 
 	regexp2 "github.com/dlclark/regexp2/v2"
 	"github.com/dlclark/regexp2/v2/syntax"
@@ -22,35 +21,15 @@ func init() {
 const allRewrites = syntax.VerifRewriteAutoAtomic | syntax.VerifRewriteEndingBacktracking | syntax.VerifRewriteBumpalong |
 	syntax.VerifRewriteAtomicAlternation | syntax.VerifRewriteAlternationPrefix
 
-// rewriteMu serialises compiles that flip the (process-global) rewrite switch
-// against all other compiles of this process.
-var rewriteMu sync.RWMutex
-
 func compileWithRewritesOff(src string, opts, copts int, mask uint32) (*regexp2.Regexp, error) {
-	rewriteMu.Lock()
-	defer rewriteMu.Unlock()
-	syntax.VerifDisableRewrites = mask
-	defer func() { syntax.VerifDisableRewrites = 0 }()
-	return mon.Compile(src, opts, copts)
+	return mon.CompileGated(mask, src, opts, copts)
 }
 
 func compileNormal(src string, opts, copts int) (*regexp2.Regexp, error) {
-	rewriteMu.RLock()
-	defer rewriteMu.RUnlock()
 	return mon.Compile(src, opts, copts)
 }
 
-func treeDump(src string, opts int, mask uint32) string {
-	rewriteMu.Lock()
-	defer rewriteMu.Unlock()
-	syntax.VerifDisableRewrites = mask
-	defer func() { syntax.VerifDisableRewrites = 0 }()
-	t, err := syntax.Parse(src, syntax.ParseOptions{RegexOptions: syntax.RegexOptions(opts)})
-	if err != nil {
-		return "error"
-	}
-	return t.Dump()
-}
+func treeDump(src string, opts int, mask uint32) string { return mon.TreeDumpGated(mask, src, opts) }
 
 func rewriteCompare(on, off *regexp2.Regexp, runes []rune, start int) (detail, got, want, incon string, matched bool) {
 	a, aerr := on.VerifNaiveFind(runes, start, start)
@@ -151,6 +130,10 @@ func runC05(r *core.Run) int {
 					hit = true
 				}
 				if detail != "" {
+					if k := r.KnownClass("nonboundary-auto-atomic"); k != nil && explainedByNonBoundaryAtomic(pc.src, pc.opts, copts, runes, s, want) {
+						r.KnownHit(k.ID)
+						continue
+					}
 					spc, sr, ss := shrinkCase(pc, runes, s, func(src string, in []rune, st int) bool {
 						a, err := compileNormal(src, pc.opts, copts)
 						if err != nil {
@@ -161,8 +144,8 @@ func runC05(r *core.Run) int {
 							return false
 						}
 						a.MatchTimeout, b.MatchTimeout = shortTimeout, shortTimeout
-						d, _, _, _, _ := rewriteCompare(a, b, in, st)
-						return d != ""
+						d, _, w2, _, _ := rewriteCompare(a, b, in, st)
+						return d != "" && !explainedByNonBoundaryAtomic(src, pc.opts, copts, in, st, w2)
 					})
 					w := witnessOf(spc, sr, ss)
 					w.COpts = copts
@@ -193,4 +176,21 @@ func runC05(r *core.Run) int {
 		"patterns from rewrite-shaped templates, random full-syntax ASTs and the harvested corpus; each compiled normally and with a set of rewrites gated off (all five, or single ones); per pattern bounded-exhaustive and pattern-directed inputs at every start offset; evaluation = one comparison of the two naive-scan results (position and all captures); non-trivial = distinct (pattern,mask,input) where the gated compile produced a different tree and the un-rewritten pattern matches",
 		[]string{"the rewrite gates switch off exactly the five passes named in the property", "compiles that flip the gate are serialised against all other compiles in the process"},
 		map[string]int64{"evaluations": 50000, "distinct_nontrivial": 1000, "patterns_whose_tree_differs": 100})
+}
+
+// explainedByNonBoundaryAtomic is the class predicate of the known finding
+// "loop over non-word/non-digit chars followed by \B is made atomic": the
+// divergence is in the class iff compiling with ONLY those clauses of the
+// auto-atomic analysis gated off already gives the un-rewritten result.
+func explainedByNonBoundaryAtomic(src string, opts, copts int, runes []rune, start int, want string) bool {
+	re, err := mon.CompileGated(syntax.VerifRewriteNonBoundaryAtomic, src, opts, copts)
+	if err != nil {
+		return false
+	}
+	re.MatchTimeout = shortTimeout
+	m, err := re.VerifNaiveFind(runes, start, start)
+	if err != nil {
+		return false
+	}
+	return mon.ObsAll(m) == want
 }
